@@ -452,7 +452,7 @@ func (x *Exec) binop(fr *frame, st *State, t *ssa.BinOp) Value {
 		return c.Scalar(t.Type(), c.Arith(t.Op, xv.Term(), yv.Term(), xt, t.Y.Type()))
 	}
 	if isFloat(xt) {
-		f := c.Fun("f64."+sanitize(t.Op.String()), []Sort{SF64, SF64}, SF64)
+		f := c.Fun("f64."+opName(t.Op), []Sort{SF64, SF64}, SF64)
 		return c.Scalar(t.Type(), f(xv.Term(), yv.Term()))
 	}
 	if isString(xt) && t.Op == token.ADD {
